@@ -94,6 +94,15 @@ def check_try_from_iter(ctx, F, tag):
 
 def check_config(ctx, F, tag):
     check_try_from_iter(ctx, F, tag)
+    # (borrowed) every route into the run-length vector ends in From<RLBuilder>, every route into the sparse vector builds the
+    # select structures over `high`: what those constructors derive from the builder (the two sample indexes; the select
+    # pointers and offsets) is part of "the same structure whatever the route" -- a conversion that answers get / select wrongly
+    # has not produced the vector of the source's bits (C06.R5 tables, C01.R4 store / read agreement)
+    from core import Relabel
+    if not isinstance(ctx, Relabel):
+        import rltables, c01
+        rltables.check_tables(ctx, F, tag, "C11.R6.rl")
+        c01.check_select_layout(Relabel(ctx, {"C01.R4.select-store-read-agreement": "C11.R6.select-store-read-agreement"}), F, tag)
     # ---------------- R4: From<RawVector> for BitVector counts set bits with a popcount over whole words, so the conversion is
     # canonical (equal to what the bit-at-a-time route builds) only while the bits past `len` in the last word are zero
     import c05
